@@ -4,7 +4,10 @@ use std::{
     sync::Arc,
 };
 
+#[cfg(not(anydb_verif))]
 use parking_lot::{RwLock, RwLockReadGuard};
+#[cfg(anydb_verif)]
+use rawdb::verif::locks::{RwLock, RwLockReadGuard};
 use rawdb::{Region, RegionMetadata};
 
 use crate::{AnyStoredVec, BUFFER_SIZE, Pages, VecIndex, VecValue, unlikely};
